@@ -5,7 +5,7 @@ Python through the interpreter).  Coq proves, by computation over those tables l
 enums_agree / classification_agrees / registry_bijective.  The extracted comparison functions (MODEL) name the
 mismatching rows; an independent comparison written here from the property text (SPEC) names them too with both
 sides' rows; the two must name the same rows.  Every mismatching row is a violation whose replay is the row."""
-import json, os
+import json, os, re
 import vf
 from translators import gen_c03
 
@@ -152,6 +152,23 @@ def evaluate(ctx):
     return r, spec
 
 
+
+
+def corpus_rows():
+    p = os.path.join(vf.VERIF, 'corpus', 'C03', 'past_failures.json')
+    return json.load(open(p)) if os.path.exists(p) else []
+
+def coqchk(ctx):
+    """thorough tier: re-check the compiled closure of Properties/C03.vo with the independent checker and copy its summary"""
+    with vf.Lock('coq'):
+        rc, so, se = vf.sh('timeout 1200 coqchk -o -silent -R theories FEC FEC.Properties.C03', cwd=vf.COQ, timeout=1260)
+    summary = so[so.find('CONTEXT SUMMARY'):] if 'CONTEXT SUMMARY' in so else (so + se)[-800:]
+    ax = re.search(r'\* Axioms:(.*?)\n\s*\n', summary, re.S)
+    ok = rc == 0 and ax is not None and ax.group(1).strip() == '<none>'
+    ctx.obligation('coqchk -o re-checks the closure of Properties/C03.vo; axioms: %s' % (ax.group(1).strip() if ax else '?'), ok, 'coqchk', ' '.join(summary.split())[:600])
+    if not ok:
+        ctx.broken_proof('coqchk does not accept the compiled development or reports axioms')
+
 def run(ctx):
     try:
         r = gen_c03.generate()
@@ -159,9 +176,14 @@ def run(ctx):
         raise RuntimeError('translator stopped (fail closed): %s' % e)
     if not ctx.coq():
         ctx.broken_proof()
+    elif ctx.thorough:
+        coqchk(ctx)
     model = run_model()
     spec = spec_diff(r)
     spec_keys = {s[:6] for s in spec}
+    for row in corpus_rows():       # rows that failed in the past: re-evaluated first, reported like any other row
+        again = any((s[0], s[1], s[2], s[3]) == tuple(row.get(k) for k in ('table','kind','subject','name')) for s in spec)
+        ctx.count('corpus row ' + ('mismatching again' if again else 'agrees now'))
 
     for table, kind, subject, name, a, b, text, case in spec:
         ctx.violation({'table': table, 'kind': kind, 'subject': subject, 'name': name}, text, case)
